@@ -338,6 +338,7 @@ CMR_ERROR signCamion(
 
   size_t numBlocks;
   CMR_BLOCK* blocks = NULL;
+  CMR_ERROR error = CMR_OKAY;
 
   assert(CMRchrmatIsTernary(cmr, matrix, NULL));
 
@@ -362,9 +363,18 @@ CMR_ERROR signCamion(
 
     double remainingTime = timeLimit - ((clock() - totalClock) * 1.0 / CLOCKS_PER_SEC);
     char modified;
-    CMR_CALL( CMRcamionComputeSignSequentiallyConnected(cmr, (CMR_CHRMAT*) blocks[comp].matrix,
+    error = CMRcamionComputeSignSequentiallyConnected(cmr, (CMR_CHRMAT*) blocks[comp].matrix,
       (CMR_CHRMAT*) blocks[comp].transpose, change, &modified,
-      (psubmatrix && !*psubmatrix) ? &compSubmatrix : NULL, remainingTime) );
+      (psubmatrix && !*psubmatrix) ? &compSubmatrix : NULL, remainingTime);
+    if (error)
+    {
+      /* Release the blocks below; no submatrix is handed out together with an error. */
+      if (compSubmatrix)
+        CMRsubmatFree(cmr, &compSubmatrix);
+      if (psubmatrix && *psubmatrix)
+        CMRsubmatFree(cmr, psubmatrix);
+      break;
+    }
 
     CMRdbgMsg(2, "-> Block %d yields: %c\n", comp, modified ? modified : '0');
 
@@ -473,7 +483,7 @@ CMR_ERROR signCamion(
     stats->totalTime += time;
   }
 
-  return CMR_OKAY;
+  return error;
 }
 
 CMR_ERROR CMRcamionTestSigns(CMR* cmr, CMR_CHRMAT* matrix, bool* pisCamionSigned, CMR_SUBMAT** psubmatrix,
